@@ -146,3 +146,30 @@ returns_of = declare_pred("returns_of", L.V, L.V, tag="Val")
 ax("mem-Iterator", L.FA([v, a], mem(v, TY.Iterator_(a)) == z3.And(is_generator_obj(v), _all(yields_of(v), a)), [mem(v, TY.Iterator_(a))]))
 ax("mem-Generator", L.FA([v, a, b, c], mem(v, TY.Generator_(a, b, c)) == z3.And(is_generator_obj(v), _all(yields_of(v), a), mem(returns_of(v), c)),
                         [mem(v, TY.Generator_(a, b, c))]))
+
+# ---- inspect.getmro / issubclass as RewriteLargeUnion uses them
+mro = declare_pred("mro", L.V, L.V, tag="Seq[Ty]")
+ax("mro-super", L.FA([c, i], z3.Implies(z3.And(TY.is_class(c), 0 <= i, i < L.len_(mro(c))), z3.And(kind(L.nth(mro(c), i)) == K["Class"], subclass(c, L.nth(mro(c), i)))),
+                  [L.nth(mro(c), i)]))
+
+
+def _getmro(ip, a, kw, node):
+    x = as_v(a[0])
+    ip.partial(TY.is_class(x), "AttributeError", node, "getmro")
+    return ZV(mro(x), "Seq[Ty]")
+
+
+def _issubclass(ip, a, kw, node):
+    x, y = as_v(a[0]), as_v(a[1])
+    # TypedDict classes refuse class checks (TypeError), generic aliases are not classes
+    ip.partial(z3.And(kind(x) == K["Class"], kind(y) == K["Class"]), "TypeError", node, "issubclass")
+    return ZB(subclass(x, y))
+
+
+R.EXTERNALS["inspect.getmro"] = R.ExtFn(_getmro)
+R.EXTERNALS["builtins.issubclass"] = R.ExtFn(_issubclass)
+_vals.GLOBAL_ATOMS["builtins.object"] = CLS["object"]
+ax("class-kind-is-class", L.FA(c, z3.Implies(z3.And(TY.is_class(c), subclass(v, c)), True), [subclass(v, c)]))
+# instances of a subclass conform to the superclass (mem on plain classes is subclass of the runtime class)
+ax("mem-class-super", L.FA([v, c, d], z3.Implies(z3.And(kind(c) == K["Class"], kind(d) == K["Class"], mem(v, c), subclass(c, d)), mem(v, d)),
+                          [(mem(v, c), subclass(c, d))]))
